@@ -39,6 +39,16 @@ def texts():
             for tl in TAILS:
                 yield 'lineend-tail', b2 + tl
                 yield 'lineend-head', tl + b2 + '\n'
+    # quoted attribute names over every character class, in every place a name can stand (fifth round of seeds: a lone `$` in a
+    # quoted name made the attrpath scanner spin); deterministic short names plus seeded longer ones
+    NCH = ['a', '$', '{', '}', '"', '\\\\', '.', ' ', "'", '#', '/', '*', '=', ';', 'é', '\\n', '-', '0']
+    def esc(ch): return '\\"' if ch == '"' else ch
+    names = [esc(a) for a in NCH] + [esc(a) + esc(b) for a in NCH for b in NCH]
+    for _ in range(150): names.append(''.join(esc(R.choice(NCH)) for _ in range(R.randint(3, 7))))
+    for nm in names:
+        if '${' in nm: nm = nm.replace('${', '$ {')           # keep it a plain (non-interpolated) name: `$` followed by something else
+        for tpl in ('{ "%s" = 1; }', '{ "%s".c = 1; }', '{ a."%s" = 1; }', 'x."%s"', 'x ? "%s"', '{ inherit "%s"; }', '{ "%s" = 1; "z" = 2; }'):
+            yield 'quoted-name', tpl % nm
     for _ in range(N):
         base = G1.doc() if R.random() < 0.5 else G2.doc()
         b = base.encode(); ls = []; leaves(parse_to_ast(base), ls)
